@@ -49,6 +49,23 @@ def unsafe_census(repo="/repo"):
     return out
 
 
+EXT = {}
+try:
+    import props_py
+    PROPS.update(props_py.PROPS_PY)
+    for k in props_py.PROPS_PY:
+        EXT[k] = props_py
+except Exception as e:  # pragma: no cover
+    print("note: Python-slice configuration not loaded:", e)
+try:
+    import props_c
+    PROPS.update(props_c.PROPS_C)
+    for k in props_c.PROPS_C:
+        EXT[k] = props_c
+except Exception as e:  # pragma: no cover
+    print("note: C-slice configuration not loaded:", e)
+
+
 class RustRunner:
     def __init__(self, harness, harness_release, vp):
         self.harness = harness
@@ -86,6 +103,8 @@ def make_shards(prop, cfg, seed, tier, root):
 
 
 def gen_histories(prop, cfg, seed, s, nhist, tier):
+    if prop in EXT:
+        return EXT[prop].gen_histories(prop, seed, s, nhist, tier)
     if cfg["target"] == "arena":
         return gen.gen_arena(seed, s, nhist, tier)
     if cfg.get("gen") == "c14":
@@ -129,7 +148,10 @@ def verdict(prop, cfg, tier, seed, pr, results, runner, drv, t0, vp):
         for x in dv:
             x["dir"] = d
         divs += dv
-        nontriv += vp.nontrivial_stats(os.path.join(d, "impl"), cfg["target"])
+        if hasattr(runner, "nontrivial_stats"):
+            nontriv += runner.nontrivial_stats(os.path.join(d, "impl"))
+        else:
+            nontriv += vp.nontrivial_stats(os.path.join(d, "impl"), cfg["target"])
         for l in open(os.path.join(d, "viol")):
             if l.startswith("VIOL " + prop + " "):
                 viols.append((d, l.strip()))
@@ -169,8 +191,8 @@ def verdict(prop, cfg, tier, seed, pr, results, runner, drv, t0, vp):
             continue
         reported.add(hid)
         hist = history_from_ops(os.path.join(d, "ops"), hid) or []
-        small = vp.ddmin(hist, runner.harness, prop) if hist else hist
-        again = vp.harness_viols(small, runner.harness, prop, "confirm") if small else [v]
+        small = vp.ddmin(hist, runner, prop) if hist else hist
+        again = vp.viols_of(small, runner, prop, "confirm") if small else [v]
         path = os.path.join(replay_dir, f"{prop}-{hid}.json")
         json.dump(dict(property=prop, kind="impl-violation", target=cfg["target"], ops=small,
                        oracle=(again or [v])[0], seed=seed), open(path, "w"), indent=1)
@@ -200,7 +222,7 @@ def verdict(prop, cfg, tier, seed, pr, results, runner, drv, t0, vp):
             d, v = found
             hid = v.split()[2]
             hist = history_from_ops(os.path.join(d, "ops"), hid) or []
-            small = vp.ddmin(hist, runner.harness, prop)
+            small = vp.ddmin(hist, runner, prop)
             path = os.path.join(replay_dir, f"{prop}-{hid}.json")
             json.dump(dict(property=prop, kind="impl-violation", target=cfg["target"], ops=small, oracle=v, seed=seed),
                       open(path, "w"), indent=1)
